@@ -99,6 +99,14 @@ MUTANTS = [
     (TL, 'groupby(permutations(iterable, 2), key=_groupkey)', 'groupby(permutations(iterable, 2), key=operator.itemgetter(1))', ['tools.maximal'], 'breaks'),
     (CX, "        return junctors.Relations(self.properties,\n                                  self._extents.bools(),", "        return junctors.Relations(self.properties,\n                                  self._intents.bools(),", ['contexts.relations'], 'breaks'),
     (CX, "                                  self._extents.bools(),\n                                  include_unary)", "                                  self._extents.bools(),\n                                  True)", ['contexts.relations'], 'breaks'),
+    (CX, "        return definitions.Definition(self.objects, self.properties, self.bools)", "        return definitions.Definition(self.properties, self.objects, self.bools)", ['contexts.definition'], 'breaks'),
+    (DF, "        yield self.objects\n        yield self.properties\n        yield self.bools", "        yield self.properties\n        yield self.objects\n        yield self.bools", ['definitions.__iter__'], 'breaks'),
+    (DF, "        return formats.Format[frmat].dumps(*self, **kwargs)", "        return formats.Format[frmat].dumps(*self)", ['definitions.tostring'], 'breaks'),
+    (DF, "        return fractions.Fraction(len(self._pairs), self.shape.size)", "        return fractions.Fraction(len(self._pairs), len(self.objects))", ['definitions.fill_ratio'], 'breaks'),
+    (CX, "        n_true = sum(intent.count() for intent in self._intents)", "        n_true = len(self._intents)", ['contexts.fill_ratio'], 'breaks'),
+    (CX, "        return tools.crc32_hex(self.tostring().encode(encoding))", "        return tools.crc32_hex(self.tostring(frmat='csv').encode(encoding))", ['contexts.crc32'], 'breaks'),
+    (CM, "        return cls(len(objects), len(properties))", "        return cls(len(properties), len(objects))", ['_common.Shape._from_pair'], 'breaks'),
+    (CM, "        return self.objects * self.properties", "        return self.objects + self.properties", ['_common.Shape.size'], 'breaks'),
     # completeness / exactly-once of FCbO (units fcbo.*.complete)
     (FC, 'stack.append((concept, j + 1, next_property_sets))', 'stack.append((concept, j + 2, next_property_sets))', ['fcbo.fast_generate_from.complete'], 'breaks'),
     (FC, '                if j_lower & intent == j_lower:', '                if True:', ['fcbo.fast_generate_from.complete'], 'breaks'),
